@@ -92,6 +92,93 @@ theorem Pushes.of_push {db : Db} {s s1 s' : JState} {e : Entry} (hp : pushEntry 
   · intro b hb; simp at hb; rw [p.absT db]; exact hwA b hb.symm
   · intro b k hb; simp at hb; rw [p.absT db]; exact hwS b k hb.symm
 
+
+/-- no warming is journaled in `es` -/
+def NoWarm (es : List Entry) : Prop :=
+  (∀ b, Entry.accountWarmed b ∉ es) ∧ (∀ b k, Entry.storageWarmed b k ∉ es)
+
+theorem NoWarm.nil : NoWarm [] := ⟨fun _ h => by simp at h, fun _ _ h => by simp at h⟩
+theorem NoWarm.append {es fs : List Entry} (h1 : NoWarm es) (h2 : NoWarm fs) : NoWarm (es ++ fs) :=
+  ⟨fun b h => by rcases List.mem_append.1 h with h | h; exact h1.1 b h; exact h2.1 b h,
+   fun b k h => by rcases List.mem_append.1 h with h | h; exact h1.2 b k h; exact h2.2 b k h⟩
+theorem NoWarm.single {e : Entry} (h1 : ∀ b, ¬ e = Entry.accountWarmed b) (h2 : ∀ b k, ¬ e = Entry.storageWarmed b k) :
+    NoWarm [e] :=
+  ⟨fun b h => by simp at h; exact h1 b h.symm, fun b k h => by simp at h; exact h2 b k h.symm⟩
+theorem NoWarm.touched (c : Bool) (a : Addr) : NoWarm (if c then [] else [Entry.accountTouched a]) := by
+  cases c
+  · exact NoWarm.single (fun _ h => by cases h) (fun _ _ h => by cases h)
+  · exact NoWarm.nil
+
+/-- forward effect of an operation on the warm component: exactly the addresses in `A` and the slots in `S`
+become warm, nothing becomes cold -/
+structure Warms (db : Db) (s s' : JState) (A : List Addr) (S : List (Addr × Nat)) : Prop where
+  addr : ∀ b, (absT db s').warm b = ((absT db s).warm b || A.contains b)
+  slot : ∀ b k, ((absT db s').slot b k).warm = (((absT db s).slot b k).warm || S.contains (b, k))
+
+theorem Warms.refl (db : Db) (s : JState) : Warms db s s [] [] := ⟨fun _ => by simp, fun _ _ => by simp⟩
+
+theorem Warms.trans {db : Db} {s s1 s2 : JState} {A1 A2 : List Addr} {S1 S2 : List (Addr × Nat)}
+    (h1 : Warms db s s1 A1 S1) (h2 : Warms db s1 s2 A2 S2) : Warms db s s2 (A1 ++ A2) (S1 ++ S2) :=
+  ⟨fun b => by rw [h2.addr, h1.addr]; simp [Bool.or_assoc],
+   fun b k => by rw [h2.slot, h1.slot]; simp [Bool.or_assoc]⟩
+
+theorem Pushes.warm_eq {db : Db} {s s' : JState} {es : List Entry} (p : Pushes db s s' es) (b : Addr) :
+    (absT db s').warm b = ((absT db s).warm b || es.contains (Entry.accountWarmed b)) := by
+  have e := congrFun (congrArg AState.warm p.undo) b
+  rw [undoTs_warm] at e
+  by_cases h : Entry.accountWarmed b ∈ es
+  · rw [p.warmedA b h]; simp [h]
+  · simp [h] at e; simp [h, e]
+
+theorem Pushes.slotwarm_eq {db : Db} {s s' : JState} {es : List Entry} (p : Pushes db s s' es) (b : Addr) (k : Nat) :
+    ((absT db s').slot b k).warm = (((absT db s).slot b k).warm || es.contains (Entry.storageWarmed b k)) := by
+  have e := congrArg AbsSlot.warm (congrFun (congrFun (congrArg AState.slot p.undo) b) k)
+  rw [undoTs_slotwarm] at e
+  by_cases h : Entry.storageWarmed b k ∈ es
+  · rw [p.warmedS b k h]; simp [h]
+  · simp [h] at e; simp [h, e]
+
+theorem Pushes.warms_nil {db : Db} {s s' : JState} {es : List Entry} (p : Pushes db s s' es) (h : NoWarm es) :
+    Warms db s s' [] [] :=
+  ⟨fun b => by rw [p.warm_eq]; simp [h.1 b], fun b k => by rw [p.slotwarm_eq]; simp [h.2 b k]⟩
+
+/-- `load_account a`: `a` is warm afterwards, nothing else changes in the warm component -/
+theorem Warms.of_load {db : Db} {s s' : JState} {a : Addr} {c : Bool}
+    (p : Pushes db s s' (if c then [.accountWarmed a] else [])) (hc : c = !(absT db s).warm a) :
+    Warms db s s' [a] [] := by
+  refine ⟨fun b => ?_, fun b k => ?_⟩
+  · rw [p.warm_eq]
+    cases c
+    · simp at hc
+      by_cases hb : b = a
+      · subst hb; simp [hc]
+      · have : ¬ a = b := fun e => hb e.symm
+        simp [hb, this]
+    · by_cases hb : b = a
+      · subst hb; simp
+      · have : ¬ a = b := fun e => hb e.symm
+        simp [hb, this]
+  · rw [p.slotwarm_eq]; cases c <;> simp
+
+/-- `sload a k`: the slot is warm afterwards, nothing else changes in the warm component -/
+theorem Warms.of_sload {db : Db} {s s' : JState} {a : Addr} {k : Nat} {c : Bool}
+    (p : Pushes db s s' (if c then [.storageWarmed a k] else [])) (hc : c = !((absT db s).slot a k).warm) :
+    Warms db s s' [] [(a, k)] := by
+  refine ⟨fun b => ?_, fun b j => ?_⟩
+  · rw [p.warm_eq]; cases c <;> simp
+  · rw [p.slotwarm_eq]
+    cases c
+    · simp at hc
+      by_cases hb : b = a ∧ j = k
+      · obtain ⟨rfl, rfl⟩ := hb; simp [hc]
+      · have : ¬ (a = b ∧ k = j) := fun e => hb ⟨e.1.symm, e.2.symm⟩
+        simp [hb, this]
+    · by_cases hb : b = a ∧ j = k
+      · obtain ⟨rfl, rfl⟩ := hb; simp
+      · have : ¬ (a = b ∧ k = j) := fun e => hb ⟨e.1.symm, e.2.symm⟩
+        simp [hb, this]
+
+
 /-- `load_account`: journals exactly the cold load, and `is_cold` is the negation of the observable warm bit -/
 theorem loadAccount_pushes {db : Db} {s s' : JState} {a : Addr} {c : Bool}
     (h : loadAccount db s a = some (s', c)) :
@@ -212,14 +299,15 @@ theorem Pushes.of_push_set {db : Db} {s s1 : JState} {a : Addr} {acc' : Acct} {e
   · intro b hb; simp at hb; exact absurd hb.symm (hnA b)
   · intro b k hb; simp at hb; exact absurd hb.symm (hnS b k)
 
-theorem touch_pushes {db : Db} {s s' : JState} {a : Addr} (h : touch s a = some s') : ∃ es, Pushes db s s' es := by
+theorem touch_pushes {db : Db} {s s' : JState} {a : Addr} (h : touch s a = some s') :
+    ∃ es, Pushes db s s' es ∧ NoWarm es := by
   unfold touch at h
   cases hs : s.state a with
-  | none => simp [hs] at h; subst h; exact ⟨[], Pushes.refl db s⟩
+  | none => simp [hs] at h; subst h; exact ⟨[], Pushes.refl db s, NoWarm.nil⟩
   | some acc =>
     simp [hs] at h
     obtain ⟨acc', h⟩ := h
-    exact ⟨_, (touchAccount_pushes hs h).1⟩
+    exact ⟨_, (touchAccount_pushes hs h).1, NoWarm.touched _ _⟩
 
 theorem loadCode_pushes {db : Db} {s s' : JState} {a : Addr} {c : Bool}
     (h : loadCode db s a = some (s', c)) :
@@ -247,14 +335,14 @@ theorem loadCode_pushes {db : Db} {s s' : JState} {a : Addr} {c : Bool}
         exact ⟨p1, hc, by simp [hs]⟩
 
 theorem incNonce_pushes {db : Db} {s s' : JState} {a : Addr} {r : Option Nat}
-    (h : incNonce s a = some (s', r)) : ∃ es, Pushes db s s' es := by
+    (h : incNonce s a = some (s', r)) : ∃ es, Pushes db s s' es ∧ NoWarm es := by
   simp only [incNonce, bind, Option.bind] at h
   cases hs : s.state a with
   | none => simp [hs] at h
   | some acc =>
     simp [hs] at h
     by_cases hn : acc.info.nonce = U64 - 1
-    · simp [hn] at h; obtain ⟨h1, _⟩ := h; subst h1; exact ⟨[], Pushes.refl db s⟩
+    · simp [hn] at h; obtain ⟨h1, _⟩ := h; subst h1; exact ⟨[], Pushes.refl db s, NoWarm.nil⟩
     · simp [hn] at h
       cases ht : touchAccount s a acc with
       | none => simp [ht] at h
@@ -267,13 +355,14 @@ theorem incNonce_pushes {db : Db} {s s' : JState} {a : Addr} {r : Option Nat}
         | some s2 =>
           simp [hp] at h; obtain ⟨h1, _⟩ := h; subst h1
           have ha := absAcct_some db s1 hs1
-          refine ⟨_, Pushes.trans p1 (Pushes.of_push_set hp ?_ (by simp) ?_)⟩
+          refine ⟨_, Pushes.trans p1 (Pushes.of_push_set hp ?_ (by simp) ?_),
+            NoWarm.append (NoWarm.single (fun _ h => by cases h) (fun _ _ h => by cases h)) (NoWarm.touched _ _)⟩
           · simp [absT_setAcct, putA, undoT, absOf, upd_upd_same, ha, upd_self', absSlot_some, decU64]
           · exact BalOk.of_eq (by simp [absT_setAcct, putA, absOf, ha, upd_self'])
 
 theorem setCode_pushes {db : Db} {s s' : JState} {a : Addr} {hash : Nat}
     (hadm : ∀ acc, s.state a = some acc → acc.info.codeHash = KECCAK_EMPTY)
-    (h : setCode s a hash = some s') : ∃ es, Pushes db s s' es := by
+    (h : setCode s a hash = some s') : ∃ es, Pushes db s s' es ∧ NoWarm es := by
   simp only [setCode, bind, Option.bind] at h
   cases hs : s.state a with
   | none => simp [hs] at h
@@ -291,35 +380,60 @@ theorem setCode_pushes {db : Db} {s s' : JState} {a : Addr} {hash : Nat}
         simp [hp] at h; subst h
         have ha := absAcct_some db s1 hs1
         have hk : acc1.info.codeHash = KECCAK_EMPTY := by rw [hacc1]; exact hadm acc hs
-        refine ⟨_, Pushes.trans p1 (Pushes.of_push_set hp ?_ (by simp) ?_)⟩
+        refine ⟨_, Pushes.trans p1 (Pushes.of_push_set hp ?_ (by simp) ?_),
+          NoWarm.append (NoWarm.single (fun _ h => by cases h) (fun _ _ h => by cases h)) (NoWarm.touched _ _)⟩
         · simp [absT_setAcct, putA, undoT, absOf, upd_upd_same, ha, upd_self', absSlot_some, hk]
         · exact BalOk.of_eq (by simp [absT_setAcct, putA, absOf, ha, upd_self'])
 
 
 
+/-- the delegation target designated by the code of `a`, as `load_account_delegated` reads it -/
+def delegateOf (db : Db) (s : JState) (a : Addr) : Option Addr :=
+  match loadCode db s a with
+  | some (s1, _) => (s1.state a).bind fun acc => acc.info.code.bind db.delegate
+  | none => none
+
 theorem loadAccountDelegated_pushes {db : Db} {s s' : JState} {a : Addr} {e c : Bool} {d : Option Bool}
-    (h : loadAccountDelegated db s a = some (s', e, c, d)) : ∃ es, Pushes db s s' es := by
+    (h : loadAccountDelegated db s a = some (s', e, c, d)) :
+    (∃ es, Pushes db s s' es) ∧ c = !(absT db s).warm a ∧
+    (match delegateOf db s a with
+     | none => d = none ∧ Warms db s s' [a] []
+     | some dl => d = some (!((absT db s).warm dl || dl == a)) ∧ Warms db s s' [a, dl] []) := by
   simp only [loadAccountDelegated, bind, Option.bind] at h
   cases hl : loadCode db s a with
   | none => simp [hl] at h
   | some r =>
     obtain ⟨s1, c1⟩ := r
-    obtain ⟨p1, _, _⟩ := loadCode_pushes hl
+    obtain ⟨p1, hc1, _⟩ := loadCode_pushes hl
+    have w1 := Warms.of_load p1 hc1
     simp [hl] at h
     cases hs : s1.state a with
     | none => simp [hs] at h
     | some acc =>
       simp [hs] at h
+      have hdel : delegateOf db s a = acc.info.code.bind db.delegate := by
+        simp [delegateOf, hl, hs]
+      rw [hdel]
       split at h
-      · rename_i dl _
+      · rename_i dl hdl
+        have hdl' : acc.info.code.bind db.delegate = some dl := by
+          simpa [Option.bind] using hdl
         cases hl2 : loadAccount db s1 dl with
         | none => simp [hl2] at h
         | some r2 =>
           obtain ⟨s2, c2⟩ := r2
-          obtain ⟨p2, _, _⟩ := loadAccount_pushes hl2
-          simp [hl2] at h; obtain ⟨h1, _⟩ := h; subst h1
-          exact ⟨_, Pushes.trans p1 p2⟩
-      · simp at h; obtain ⟨h1, _⟩ := h; subst h1; exact ⟨_, p1⟩
+          obtain ⟨p2, hc2, _⟩ := loadAccount_pushes hl2
+          have w2 := Warms.of_load p2 hc2
+          simp [hl2] at h; obtain ⟨h1, _, h3, h4⟩ := h; subst h1 h3 h4
+          rw [hdl']
+          refine ⟨⟨_, Pushes.trans p1 p2⟩, hc1, ?_, by simpa using Warms.trans w1 w2⟩
+          rw [hc2, w1.addr]; cases (absT db s).warm dl <;> by_cases hda : dl = a <;> simp [hda]
+      · rename_i hdl
+        have hdl' : acc.info.code.bind db.delegate = none := by
+          simpa [Option.bind] using hdl
+        simp at h; obtain ⟨h1, _, h3, h4⟩ := h; subst h1 h3 h4
+        rw [hdl']
+        exact ⟨⟨_, p1⟩, hc1, rfl, w1⟩
 
 /-- `sload`: `is_cold` is the negation of the observable warm bit of the slot -/
 theorem sload_pushes {db : Db} {s s' : JState} {a : Addr} {k v : Nat} {c : Bool}
@@ -379,7 +493,7 @@ theorem sload_pushes {db : Db} {s s' : JState} {a : Addr} {k v : Nat} {c : Bool}
 
 theorem sstore_pushes {db : Db} {s s' : JState} {a : Addr} {k new o p n : Nat} {c : Bool}
     (h : sstore db s a k new = some (s', o, p, n, c)) :
-    (∃ es, Pushes db s s' es) ∧ c = !((absT db s).slot a k).warm := by
+    (∃ es, Pushes db s s' es) ∧ c = !((absT db s).slot a k).warm ∧ Warms db s s' [] [(a, k)] := by
   simp only [sstore, bind, Option.bind] at h
   cases hl : sload db s a k with
   | none => simp [hl] at h
@@ -390,16 +504,19 @@ theorem sstore_pushes {db : Db} {s s' : JState} {a : Addr} {k new o p n : Nat} {
     simp [hl, hs1, hk] at h
     by_cases hvn : v = new
     · simp [hvn] at h; obtain ⟨h1, _, _, _, h5⟩ := h; subst h1 h5
-      exact ⟨⟨_, p1⟩, hc⟩
+      exact ⟨⟨_, p1⟩, hc, Warms.of_sload p1 hc⟩
     · simp [hvn] at h
       cases hp : pushEntry s1 (.storageChanged a k v) with
       | none => simp [hp] at h
       | some s2 =>
         simp [hp] at h; obtain ⟨h1, _, _, _, h5⟩ := h; subst h1 h5
-        refine ⟨⟨_, Pushes.trans p1 (Pushes.of_push_set hp ?_ (by simp) ?_)⟩, hc⟩
-        · simp [absT_setAcct, putA, undoT, absOf, upd_upd_same, ha, upd_self', absSlot_some, slotsOf_setSlot,
-              slotsOf_some db a acc.created hk, updK_updK_same, updK_self, hpres]
-        · exact BalOk.of_eq (by simp [absT_setAcct, putA, absOf, ha, upd_self'])
+        have p2 : Pushes db s1 (setAcct s2 a (setSlot acc k { sl with present := new })) [.storageChanged a k v] := by
+          refine Pushes.of_push_set hp ?_ (by simp) ?_
+          · simp [absT_setAcct, putA, undoT, absOf, upd_upd_same, ha, upd_self', absSlot_some, slotsOf_setSlot,
+                slotsOf_some db a acc.created hk, updK_updK_same, updK_self, hpres]
+          · exact BalOk.of_eq (by simp [absT_setAcct, putA, absOf, ha, upd_self'])
+        have w2 := p2.warms_nil (NoWarm.single (fun _ h => by cases h) (fun _ _ h => by cases h))
+        exact ⟨⟨_, Pushes.trans p1 p2⟩, hc, by simpa using Warms.trans (Warms.of_sload p1 hc) w2⟩
 
 theorem absT_setTransient (db : Db) (s : JState) (a : Addr) (k : Nat) (v : Option Nat) :
     absT db (setTransient s a k v) =
@@ -408,15 +525,16 @@ theorem absT_setTransient (db : Db) (s : JState) (a : Addr) (k : Nat) (v : Optio
   exact tload_setTransient s a k v
 
 theorem tstore_pushes {db : Db} {s s' : JState} {a : Addr} {k new : Nat}
-    (h : tstore s a k new = some s') : ∃ es, Pushes db s s' es := by
+    (h : tstore s a k new = some s') : ∃ es, Pushes db s s' es ∧ NoWarm es := by
   unfold tstore at h
   by_cases hn : new = 0
   · simp [hn] at h
     cases ht : s.transient a k with
-    | none => simp [ht] at h; subst h; exact ⟨[], Pushes.refl db s⟩
+    | none => simp [ht] at h; subst h; exact ⟨[], Pushes.refl db s, NoWarm.nil⟩
     | some had =>
       simp [ht] at h
-      refine ⟨_, Pushes.of_push h rfl rfl rfl rfl ?_ (by simp) (BalOk.of_eq (by simp [absT_setTransient]))⟩
+      refine ⟨_, Pushes.of_push h rfl rfl rfl rfl ?_ (by simp) (BalOk.of_eq (by simp [absT_setTransient])),
+        NoWarm.single (fun _ h => by cases h) (fun _ _ h => by cases h)⟩
       simp only [undoT, absT_setTransient]
       apply AState.ext' <;> try rfl
       funext b j; by_cases hb : b = a ∧ j = k
@@ -425,14 +543,15 @@ theorem tstore_pushes {db : Db} {s s' : JState} {a : Addr} {k new : Nat}
   · simp [hn] at h
     by_cases hpv : (s.transient a k).getD 0 = new
     · simp [hpv] at h; subst h
-      refine ⟨[], Pushes.silent ?_ rfl rfl rfl rfl⟩
+      refine ⟨[], Pushes.silent ?_ rfl rfl rfl rfl, NoWarm.nil⟩
       rw [absT_setTransient]
       apply AState.ext' <;> try rfl
       funext b j; by_cases hb : b = a ∧ j = k
       · obtain ⟨rfl, rfl⟩ := hb; simp [absT_tr, tload, hpv]
       · simp [absT_tr, hb]
     · simp [hpv] at h
-      refine ⟨_, Pushes.of_push h rfl rfl rfl rfl ?_ (by simp) (BalOk.of_eq (by simp [absT_setTransient]))⟩
+      refine ⟨_, Pushes.of_push h rfl rfl rfl rfl ?_ (by simp) (BalOk.of_eq (by simp [absT_setTransient])),
+        NoWarm.single (fun _ h => by cases h) (fun _ _ h => by cases h)⟩
       simp only [undoT, absT_setTransient]
       apply AState.ext' <;> try rfl
       funext b j; by_cases hb : b = a ∧ j = k
